@@ -4,7 +4,8 @@ import N0Verif.Proofs.XPathDelete
   C03, continued:
   * a creation path whose **first step is a bare `[new()]` / `[len]`** below an existing list
     (the list is the value of a dict key, or an element of an enclosing list);
-  * the general finding C03-c: `[new()]` below a list that is an element of a plain `list` raises;
+  * (finding C03-c is fixed: `[new()]` below a list that is an element of a plain `list` appends like below an
+    `n0list`; fix C03-b: element-creating steps may follow one another — tokenisation of such paths is here);
   * the general **read-back** through `replace("new()", "last()")` for every creation path of the
     honoured grammar.
 -/
@@ -43,6 +44,11 @@ theorem GOk.idx_as_elem {e : Str} {r : List CStep} (n : Str) (h : GOk (.idx e ::
   | nil => trivial
   | cons s2 r' => exact ⟨by simpa [CStep.isName] using h.1, h.2⟩
 
+theorem GW.idx_as_elem {e : Str} {r : List CStep} (n : Str) (h : GW (.idx e :: r)) : GW (.elem n e :: r) := by
+  cases r with
+  | nil => trivial
+  | cons s2 r' => exact ⟨by simp [CStep.isName], h.2⟩
+
 theorem natStr_ne_new (n : Nat) : natStr n ≠ sNew := (natStr_digits n).ne_new.1
 
 /-- what `createIn` does on a bare index step -/
@@ -65,29 +71,6 @@ theorem render_idx_under_key (q0 : Pos) (name e : Str) (steps : List CStep) :
     slash ++ renderPos (q0 ++ [Seg.key name]) ++ (CStep.idx e :: steps).flatMap renderCStep
       = slash ++ renderPos q0 ++ (CStep.elem name e :: steps).flatMap renderCStep := by
   simp [renderPos, renderSeg, renderCStep, List.flatMap_cons, List.flatMap_append]
-
-/-- **bare `[new()]` / `[len]` below a list held by a key** — the same call as `name[new()]` /
-`name[len]` from the parent dictionary -/
-theorem setItem_create_idx_under_key (cls : Cls) (kvs : List (Str × Val)) (q0 : Pos) (name : Str) (kcls : Cls)
-    (nkvs : List (Str × Val)) (c : Cls) (xs : List Val) (e : Str) (steps : List CStep) (v t' : Val) (fuel : Nat)
-    (hp : PlainPos q0) (hn : PlainKey name) (hq0 : getAt (.dict cls kvs) q0 = some (.dict kcls nkvs))
-    (hl : lookup name nkvs = some (.list c xs)) (he : e = sNew ∨ e = natStr xs.length)
-    (hsteps : ∀ x ∈ steps, x.later) (hg : GOk (.idx e :: steps))
-    (hset : setAt (.dict cls kvs) (q0 ++ [.key name]) (.list c (xs ++ [fill steps v])) = some t')
-    (hf : fuel ≥ 4 * (q0.length + 1)) :
-    setItem fuel (.dict cls kvs)
-      (slash ++ renderPos (q0 ++ [.key name]) ++ (CStep.idx e :: steps).flatMap renderCStep) v = (t', .ok ()) := by
-  rw [render_idx_under_key]
-  have hcreate : createIn (.dict kcls nkvs) (.elem name e :: steps) v
-      = some (.dict kcls (kvSet name (.list c (xs ++ [fill steps v])) nkvs)) := by
-    rcases he with rfl | rfl
-    · simp [createIn, hl, appendTo]
-    · simp [createIn, hl, natStr_ne_new]
-  have hset' : setAt (.dict cls kvs) q0 (.dict kcls (kvSet name (.list c (xs ++ [fill steps v])) nkvs)) = some t' := by
-    rw [← setAt_snoc q0 _ (.key name) (.list c (xs ++ [fill steps v])) (.dict kcls nkvs) _ hq0 (by simp [setChild])]
-    exact hset
-  exact setItem_create_steps cls kvs q0 kcls nkvs (.elem name e) steps v _ t' fuel hp hq0 hn
-    (by intro e' h; cases h) hsteps (hg.idx_as_elem name) hcreate hset' hf
 
 /-! ### the list is an element of a list: tokenisation -/
 
@@ -156,33 +139,120 @@ theorem renderPos_snoc_idx (q0 : Pos) (i : Nat) :
     slash ++ renderPos (q0 ++ [Seg.idx i]) = ('/' :: renderPos q0 ++ '[' :: natStr i) ++ [']'] := by
   simp [renderPos, renderSeg, slash, bracket]
 
+/-- the text ends with `]` -/
+def EndsRB (T : Str) : Prop := ∃ A0, T = A0 ++ [']']
+
+theorem endsRB_bracket (A e : Str) : EndsRB (A ++ bracket e) := ⟨A ++ '[' :: e, by simp [bracket]⟩
+
+theorem cleanIdx_of_laterW_idx {e : Str} (he : e = sNew ∨ e = ['0']) : CleanIdx e := cleanIdx_of_new_or_zero he
+
+/-- a text followed by the rendering of later steps of the whole grammar (after fix C03-b): a bare index
+step directly follows a `]` and is a token of its own -/
+theorem tokenize_then_stepsW : ∀ (steps : List CStep) (T : Str), (∀ x ∈ steps, x.laterW) → GW steps →
+    (∀ e r, steps = .idx e :: r → EndsRB T) →
+    tokenize (T ++ steps.flatMap renderCStep) = tokenize T ++ steps.map stepTok
+  | [], T, _, _, _ => by simp
+  | .idx e :: r, T, h, hg, hT => by
+    obtain ⟨A0, rfl⟩ := hT e r rfl
+    have he : e = sNew ∨ e = ['0'] := h (.idx e) (by simp)
+    have ih := tokenize_then_stepsW r (A0 ++ [']'] ++ bracket e) (fun x hx => h x (by simp [hx])) hg.tail
+      (fun _ _ _ => endsRB_bracket _ e)
+    rw [List.flatMap_cons, show renderCStep (.idx e) = bracket e from rfl, ← List.append_assoc, ih,
+      tokenize_append_bracket A0 e (cleanIdx_of_new_or_zero he)]
+    simp [stepTok]
+  | .name n :: r, T, h, hg, _ => by
+    have hs : (CStep.name n).later := h (.name n) (by simp)
+    have ih := tokenize_then_stepsW r (stepTok (.name n)) (fun x hx => h x (by simp [hx])) hg.tail
+      (by
+        rintro e r' rfl
+        have := hg.1 rfl
+        simp [CStep.isIdx] at this)
+    rw [List.flatMap_cons, renderStep_later hs,
+      show T ++ ('/' :: stepTok (.name n) ++ r.flatMap renderCStep) = T ++ '/' :: (stepTok (.name n) ++ r.flatMap renderCStep) by simp,
+      tokenize_append_slash, ih, tokenize_stepTok hs]
+    simp
+  | .elem n e :: r, T, h, hg, _ => by
+    have hs : (CStep.elem n e).later := h (.elem n e) (by simp)
+    have ih := tokenize_then_stepsW r (stepTok (.elem n e)) (fun x hx => h x (by simp [hx])) hg.tail
+      (fun _ _ _ => endsRB_bracket n e)
+    rw [List.flatMap_cons, renderStep_later hs,
+      show T ++ ('/' :: stepTok (.elem n e) ++ r.flatMap renderCStep) = T ++ '/' :: (stepTok (.elem n e) ++ r.flatMap renderCStep) by simp,
+      tokenize_append_slash, ih, tokenize_stepTok hs]
+    simp
+
+/-- tokens of `//…q…` followed by a first named step and later steps of the whole grammar -/
+theorem tokenize_steps_pathW (q : Pos) (hp : PlainPos q) (s : CStep) (steps : List CStep)
+    (hs : PlainKey s.nameOf) (hce : ∀ n e, s = .elem n e → CleanIdx e) (hidx : ∀ e, s ≠ .idx e)
+    (hsteps : ∀ x ∈ steps, x.laterW) (hg : GW (s :: steps)) :
+    tokenize (slash ++ renderPos q ++ (s :: steps).flatMap renderCStep) = mergedToks q ++ stepTok s :: steps.map stepTok := by
+  have hT : ∀ e r, steps = .idx e :: r → EndsRB (slash ++ renderPos q ++ renderCStep s) := by
+    rintro e r rfl
+    cases s with
+    | idx e' => exact absurd rfl (hidx e')
+    | name n =>
+      have := hg.1 rfl
+      simp [CStep.isIdx] at this
+    | elem n e' => exact ⟨slash ++ renderPos q ++ '/' :: n ++ '[' :: e', by simp [renderCStep, bracket]⟩
+  rw [List.flatMap_cons, ← List.append_assoc, tokenize_then_stepsW steps _ hsteps hg.tail hT]
+  have h0 := tokenize_steps_path q hp s [] hs hce hidx (by simp)
+  simp only [List.flatMap_cons, List.flatMap_nil, List.append_nil, List.map_nil] at h0
+  rw [h0]
+  simp
+
 /-- tokens of `//…q0…[i][e]/step/step…` -/
 theorem tokenize_idx_first_path (q0 : Pos) (i : Nat) (hp : PlainPos (q0 ++ [Seg.idx i])) (e : Str) (he : CleanIdx e)
-    (steps : List CStep) (hsteps : ∀ x ∈ steps, x.later) :
+    (steps : List CStep) (hsteps : ∀ x ∈ steps, x.laterW) (hg : GW steps) :
     tokenize (slash ++ renderPos (q0 ++ [Seg.idx i]) ++ (CStep.idx e :: steps).flatMap renderCStep)
       = mergedToks (q0 ++ [Seg.idx i]) ++ bracket e :: steps.map stepTok := by
-  rw [List.flatMap_cons, ← List.append_assoc, tokenize_then_steps steps _ hsteps]
-  simp only [renderCStep]
+  rw [List.flatMap_cons, ← List.append_assoc, show renderCStep (.idx e) = bracket e from rfl,
+    tokenize_then_stepsW steps _ hsteps hg (fun _ _ _ => endsRB_bracket _ e)]
   rw [renderPos_snoc_idx, tokenize_append_bracket _ e he, ← renderPos_snoc_idx,
     show slash ++ renderPos (q0 ++ [Seg.idx i]) = '/' :: renderPos (q0 ++ [Seg.idx i]) from rfl,
     tokenize_render _ hp]
   simp
 
+/-- **bare `[new()]` / `[len]` below a list held by a key** — the same call as `name[new()]` /
+`name[len]` from the parent dictionary -/
+theorem setItem_create_idx_under_key (cls : Cls) (kvs : List (Str × Val)) (q0 : Pos) (name : Str) (kcls : Cls)
+    (nkvs : List (Str × Val)) (c : Cls) (xs : List Val) (e : Str) (steps : List CStep) (v t' : Val) (fuel : Nat)
+    (hp : PlainPos q0) (hn : PlainKey name) (hq0 : getAt (.dict cls kvs) q0 = some (.dict kcls nkvs))
+    (hl : lookup name nkvs = some (.list c xs)) (he : e = sNew ∨ e = natStr xs.length)
+    (hsteps : ∀ x ∈ steps, x.laterW) (hg : GW (.idx e :: steps))
+    (hset : setAt (.dict cls kvs) (q0 ++ [.key name]) (.list c (xs ++ [fill steps v])) = some t')
+    (hf : fuel ≥ 4 * (q0.length + 1)) :
+    setItem fuel (.dict cls kvs)
+      (slash ++ renderPos (q0 ++ [.key name]) ++ (CStep.idx e :: steps).flatMap renderCStep) v = (t', .ok ()) := by
+  rw [render_idx_under_key]
+  have hcreate : createIn (.dict kcls nkvs) (.elem name e :: steps) v
+      = some (.dict kcls (kvSet name (.list c (xs ++ [fill steps v])) nkvs)) := by
+    rcases he with rfl | rfl
+    · simp [createIn, hl, appendTo]
+    · simp [createIn, hl, natStr_ne_new]
+  have hset' : setAt (.dict cls kvs) q0 (.dict kcls (kvSet name (.list c (xs ++ [fill steps v])) nkvs)) = some t' := by
+    rw [← setAt_snoc q0 _ (.key name) (.list c (xs ++ [fill steps v])) (.dict kcls nkvs) _ hq0 (by simp [setChild])]
+    exact hset
+  have hce : CleanIdx e := by
+    rcases he with rfl | rfl
+    · exact cleanIdx_new
+    · exact cleanIdx_nat _
+  exact setItem_create_stepsW cls kvs q0 kcls nkvs (.elem name e) steps v _ t' fuel hp hq0 hn
+    (by intro e' h; cases h) hsteps (hg.idx_as_elem name)
+    (tokenize_steps_pathW q0 hp (.elem name e) steps hn (by intro _ _ h; cases h; exact hce) (by intro e' h; cases h)
+      hsteps (hg.idx_as_elem name))
+    hcreate hset' hf
+
 /-! ### `_find` on `[new()]` below a list that is a list element -/
 
-/-- `[new()]` below an element of a list: `_find` resolves `found` again and reads the element
-through its parent as `parent["[i]"]` — an xpath lookup on an `n0list`, a `TypeError` on a plain
-`list` -/
+/-- `[new()]` below an element of a list: `_find` resolves `found` again and takes the element that
+search returns (`cur_value`, fix C03-c) — whatever the class of the enclosing list -/
 theorem find_new_step_in_list (fuel : Nat) (root : Val) (entry rl : Bool) (q0 : Pos) (i : Nat) (rest : List Str)
     (c0 : Cls) (ys : List Val) (old : Val)
     (hp : PlainPos q0) (hq0 : getAt root q0 = some (.list c0 ys)) (hi : ys[i]? = some old)
     (hold : isList old = true) (hf : fuel ≥ 2 * (q0.length + 1)) :
     ∃ fnd, findD (fuel + 1) root [] false entry (bracket sNew :: rest) (.at (q0 ++ [.idx i])) rl
         (slash ++ renderPos (q0 ++ [.idx i]))
-      = match c0 with
-        | .n0 => .ok (root, { parent := .at (q0 ++ [.idx i]), nameIdx := Option.none, value := Val.none, found := fnd,
-                              notFound := some (bracket sNew :: rest) })
-        | .plain => .error .TypeError := by
+      = .ok (root, { parent := .at (q0 ++ [.idx i]), nameIdx := Option.none, value := Val.none, found := fnd,
+                     notFound := some (bracket sNew :: rest) }) := by
   have hP : getAt root (q0 ++ [Seg.idx i]) = some old := by
     rw [getAt_snoc, hq0]; simp [child, hi]
   have hpp : PlainPos (q0 ++ [Seg.idx i]) := hp.append (plainPos_idx i)
@@ -208,22 +278,19 @@ theorem find_new_step_in_list (fuel : Nat) (root : Val) (entry rl : Bool) (q0 : 
     rw [findD]
     simp only [Bool.false_and, Bool.false_eq_true, if_false, valOf_at, hP, split_bracket_new, List.isEmpty_nil,
       Idx.truthy, Bool.not_true, if_true, htok, hr, hpar, hni, hq0]
-    cases c0 with
-    | plain => simp [(by decide : sNew ≠ [])]
-    | n0 =>
-      have hinner : (List.tail (bracket (intStr j))).dropLast = intStr j := by simp [bracket]
-      simp [(by decide : sNew ≠ []), startsWith_bracket, endsWith_bracket, hinner, pyInt_intStr, hn, hi, hold,
-        childRef]
+    have hinner : (List.tail (bracket (intStr j))).dropLast = intStr j := by simp [bracket]
+    simp [(by decide : sNew ≠ []), startsWith_bracket, endsWith_bracket, hinner, pyInt_intStr, hn, hi, hold,
+      childRef]
 
 /-! ### `__setitem__` with a bare index first step below a list element -/
 
-/-- **bare `[new()]` / `[len]` below a list that is an element of a list**: exactly one element is
-appended.  `[new()]` needs the enclosing list to be an `n0list`; `[len]` works below any list. -/
+/-- **bare `[new()]` / `[len]` below a list that is an element of a list** (plain or `n0list`, after
+fix C03-c): exactly one element is appended. -/
 theorem setItem_create_idx_in_list (cls : Cls) (kvs : List (Str × Val)) (q0 : Pos) (i : Nat) (c0 : Cls) (ys : List Val)
     (c : Cls) (xs : List Val) (e : Str) (steps : List CStep) (v t' : Val) (fuel : Nat)
     (hp : PlainPos q0) (hq0 : getAt (.dict cls kvs) q0 = some (.list c0 ys)) (hi : ys[i]? = some (.list c xs))
-    (he : e = sNew ∨ e = natStr xs.length) (hn0 : e = sNew → c0 = .n0)
-    (hsteps : ∀ x ∈ steps, x.later) (hg : GOk (.idx e :: steps))
+    (he : e = sNew ∨ e = natStr xs.length)
+    (hsteps : ∀ x ∈ steps, x.laterW) (hg : GW (.idx e :: steps))
     (hset : setAt (.dict cls kvs) (q0 ++ [.idx i]) (.list c (xs ++ [fill steps v])) = some t')
     (hf : fuel ≥ 4 * (q0.length + 2)) :
     setItem fuel (.dict cls kvs)
@@ -236,12 +303,11 @@ theorem setItem_create_idx_in_list (cls : Cls) (kvs : List (Str × Val)) (q0 : P
     simp [slash, startsWith]
   have hpc : hasPathChar (slash ++ renderPos (q0 ++ [Seg.idx i]) ++ (CStep.idx e :: steps).flatMap renderCStep) = true := by
     simp [hasPathChar, slash]
-  have hh := hg.headName_of_idx
   have hce : CleanIdx e := by
     rcases he with rfl | rfl
     · exact cleanIdx_new
     · exact cleanIdx_nat _
-  have htok := tokenize_idx_first_path q0 i hpp e hce steps hsteps
+  have htok := tokenize_idx_first_path q0 i hpp e hce steps hsteps hg.tail
   obtain ⟨f', e', h1, _, hwalk⟩ := find_walk (.dict cls kvs) true (spellsF_merged _ _ _ hpp hP)
     (bracket e :: steps.map stepTok) (by simp) fuel [] slash true rfl (by simp at hlen ⊢; omega)
   rw [List.nil_append] at hwalk
@@ -249,56 +315,26 @@ theorem setItem_create_idx_in_list (cls : Cls) (kvs : List (Str × Val)) (q0 : P
   rcases he with rfl | rfl
   · obtain ⟨fnd, hnew⟩ := find_new_step_in_list f (.dict cls kvs) e' true q0 i (steps.map stepTok) c0 ys (.list c xs)
       hp hq0 hi rfl (by simp at hlen h1; omega)
-    rw [hn0 rfl] at hnew
     rw [hnew] at hwalk
     exact setItem_of_find hqm hpc htok hwalk rfl (by simp)
-      (addStores_new_on_list' _ _ c xs steps v t' hP hsteps hg.tail hh hset)
+      (addStores_new_on_list' _ _ c xs steps v t' hP hsteps hg.tail hset)
   · rw [find_idx_miss f _ e' true (q0 ++ [Seg.idx i]) _ _ _ (xs.length : Int) (steps.map stepTok) c xs hP
       (natStr_idxTok xs.length) (Or.inl (Int.le_refl _))] at hwalk
     exact setItem_of_find hqm hpc htok hwalk rfl (by simp)
-      (addStores_len_on_list' _ _ c xs steps v t' hP hsteps hg.tail hh hset)
+      (addStores_len_on_list' _ _ c xs steps v t' hP hsteps hg.tail hset)
 
-/-- **finding C03-c, in general.**  `[new()]` (followed by any later steps) directly below a list
-that is an element of a **plain** `list` raises `TypeError` and leaves the tree as it was — whatever
-the tree, the depth and the rest of the path. -/
-theorem setItem_new_in_plain_list_raises (cls : Cls) (kvs : List (Str × Val)) (q0 : Pos) (i : Nat) (ys : List Val)
-    (c : Cls) (xs : List Val) (steps : List CStep) (v : Val) (fuel : Nat)
-    (hp : PlainPos q0) (hq0 : getAt (.dict cls kvs) q0 = some (.list .plain ys)) (hi : ys[i]? = some (.list c xs))
-    (hsteps : ∀ x ∈ steps, x.later) (hf : fuel ≥ 4 * (q0.length + 2)) :
-    setItem fuel (.dict cls kvs)
-      (slash ++ renderPos (q0 ++ [.idx i]) ++ (CStep.idx sNew :: steps).flatMap renderCStep) v
-        = (.dict cls kvs, .error .TypeError) := by
-  have hpp : PlainPos (q0 ++ [Seg.idx i]) := hp.append (plainPos_idx i)
-  have hP : getAt (.dict cls kvs) (q0 ++ [Seg.idx i]) = some (.list c xs) := by
-    rw [getAt_snoc, hq0]; simp [child, hi]
-  have hlen := mergedToks_length_le (q0 ++ [Seg.idx i])
-  have hqm : startsWith (slash ++ renderPos (q0 ++ [Seg.idx i]) ++ (CStep.idx sNew :: steps).flatMap renderCStep) ['?'] = false := by
-    simp [slash, startsWith]
-  have hpc : hasPathChar (slash ++ renderPos (q0 ++ [Seg.idx i]) ++ (CStep.idx sNew :: steps).flatMap renderCStep) = true := by
-    simp [hasPathChar, slash]
-  have htok := tokenize_idx_first_path q0 i hpp sNew cleanIdx_new steps hsteps
-  obtain ⟨f', e', h1, _, hwalk⟩ := find_walk (.dict cls kvs) true (spellsF_merged _ _ _ hpp hP)
-    (bracket sNew :: steps.map stepTok) (by simp) fuel [] slash true rfl (by simp at hlen ⊢; omega)
-  rw [List.nil_append] at hwalk
-  obtain ⟨f, rfl⟩ : ∃ f, f' = f + 1 := ⟨f' - 1, by simp at hlen h1; omega⟩
-  obtain ⟨fnd, hnew⟩ := find_new_step_in_list f (.dict cls kvs) e' true q0 i (steps.map stepTok) .plain ys (.list c xs)
-    hp hq0 hi rfl (by simp at hlen h1; omega)
-  rw [hnew] at hwalk
-  unfold setItem
-  simp only [hqm, Bool.false_and, Bool.false_eq_true, if_false, hpc, if_true, htok, hwalk]
-
-/-- the position `q` is an element of a plain `list` -/
+/-- the position `q` is an element of a plain `list` (before fix C03-c a bare `[new()]` was refused there;
+still used by `Hist.ValidOp`) -/
 def PlainListEncloses (t : Val) (q : Pos) : Prop :=
   ∃ q0 i ys, q = q0 ++ [Seg.idx i] ∧ getAt t q0 = some (.list .plain ys)
 
 /-- **bare `[new()]` / `[len]` first step**, wherever the target list sits: exactly one element is
-appended, provided no plain `list` directly encloses the target list when the step is `[new()]`. -/
+appended. -/
 theorem setItem_create_idx (cls : Cls) (kvs : List (Str × Val)) (q : Pos) (cur cur' : Val) (e : Str)
     (steps : List CStep) (v t' : Val) (fuel : Nat)
-    (hp : PlainPos q) (hget : getAt (.dict cls kvs) q = some cur) (hsteps : ∀ x ∈ steps, x.later)
-    (hg : GOk (.idx e :: steps)) (hcreate : createIn cur (.idx e :: steps) v = some cur')
-    (hset : setAt (.dict cls kvs) q cur' = some t')
-    (hencl : e = sNew → ¬ PlainListEncloses (.dict cls kvs) q) (hf : fuel ≥ 4 * (q.length + 1)) :
+    (hp : PlainPos q) (hget : getAt (.dict cls kvs) q = some cur) (hsteps : ∀ x ∈ steps, x.laterW)
+    (hg : GW (.idx e :: steps)) (hcreate : createIn cur (.idx e :: steps) v = some cur')
+    (hset : setAt (.dict cls kvs) q cur' = some t') (hf : fuel ≥ 4 * (q.length + 1)) :
     setItem fuel (.dict cls kvs) (slash ++ renderPos q ++ (CStep.idx e :: steps).flatMap renderCStep) v = (t', .ok ()) := by
   obtain ⟨c, xs, rfl⟩ := createIn_idx_list hcreate
   obtain ⟨he, rfl⟩ := createIn_idx_inv hcreate
@@ -320,12 +356,8 @@ theorem setItem_create_idx (cls : Cls) (kvs : List (Str × Val)) (q : Pos) (cur 
         hsteps hg hset (by simp at hf; omega)
     | idx i =>
       obtain ⟨c0, ys, rfl, hi, _⟩ := child_idx_some hget
-      refine setItem_create_idx_in_list cls kvs q0 i c0 ys c xs e steps v t' fuel hp0 hpv hi he ?_ hsteps hg hset
+      exact setItem_create_idx_in_list cls kvs q0 i c0 ys c xs e steps v t' fuel hp0 hpv hi he hsteps hg hset
         (by simp at hf; omega)
-      intro hnew
-      cases c0 with
-      | n0 => rfl
-      | plain => exact absurd ⟨q0, i, ys, rfl, hpv⟩ (hencl hnew)
 
 theorem createIn_named_dict {cur : Val} {s : CStep} {steps : List CStep} {v cur' : Val}
     (h : createIn cur (s :: steps) v = some cur') (hidx : ∀ e, s ≠ .idx e) : ∃ kcls nkvs, cur = .dict kcls nkvs := by
@@ -338,13 +370,12 @@ theorem createIn_named_dict {cur : Val} {s : CStep} {steps : List CStep} {v cur'
     cases cur <;> simp [createIn] at h
     exact ⟨_, _, rfl⟩
 
-/-- **every path of the honoured grammar**, whatever the first step: exactly `createIn` -/
+/-- **every path of the creation grammar**, whatever the first step: exactly `createIn` -/
 theorem setItem_create_any (cls : Cls) (kvs : List (Str × Val)) (q : Pos) (cur cur' : Val) (s : CStep)
     (steps : List CStep) (v t' : Val) (fuel : Nat)
     (hp : PlainPos q) (hget : getAt (.dict cls kvs) q = some cur) (hfirst : s.first)
-    (hsteps : ∀ x ∈ steps, x.later) (hg : GOk (s :: steps))
+    (hsteps : ∀ x ∈ steps, x.laterW) (hg : GW (s :: steps))
     (hcreate : createIn cur (s :: steps) v = some cur') (hset : setAt (.dict cls kvs) q cur' = some t')
-    (hencl : s = .idx sNew → ¬ PlainListEncloses (.dict cls kvs) q)
     (hf : fuel ≥ 4 * (q.length + 1)) :
     setItem fuel (.dict cls kvs) (slash ++ renderPos q ++ (s :: steps).flatMap renderCStep) v = (t', .ok ()) := by
   by_cases hidx : ∀ e, s ≠ .idx e
@@ -354,14 +385,15 @@ theorem setItem_create_any (cls : Cls) (kvs : List (Str × Val)) (q : Pos) (cur 
       | name n => exact hfirst
       | elem n e => exact hfirst
       | idx e => exact absurd rfl (hidx e)
-    exact setItem_create_steps cls kvs q kcls nkvs s steps v cur' t' fuel hp hget hs hidx hsteps hg hcreate hset hf
+    exact setItem_create_stepsW cls kvs q kcls nkvs s steps v cur' t' fuel hp hget hs hidx hsteps hg
+      (tokenize_steps_pathW q hp s steps hs (fun n e h => by subst h; exact createIn_elem_clean hcreate) hidx hsteps hg)
+      hcreate hset hf
   · obtain ⟨e, rfl⟩ : ∃ e, s = .idx e := by
       cases s with
       | idx e => exact ⟨e, rfl⟩
       | name n => exact absurd (by intro e h; cases h) hidx
       | elem n e => exact absurd (by intro e h; cases h) hidx
-    exact setItem_create_idx cls kvs q cur cur' e steps v t' fuel hp hget hsteps hg hcreate hset
-      (fun h => hencl (by rw [h])) hf
+    exact setItem_create_idx cls kvs q cur cur' e steps v t' fuel hp hget hsteps hg hcreate hset hf
 
 /-! ## read-back through `replace("new()", "last()")` -/
 
@@ -1009,5 +1041,65 @@ theorem getItem_readback_any (cls : Cls) (kvs : List (Str × Val)) (q : Pos) (cu
       | elem n e => exact absurd (by intro e h; cases h) hidx
     exact getItem_readback_idx cls kvs q cur cur' e steps v t' fuel hp hget hsteps hnq
       (fun x hx => hnp x (by simp [hx])) hcreate hset hf
+
+/-! ## a refused assignment (fix C03-a) -/
+
+/-- the part of `__setitem__` after the search: whatever raises there (`_add`, the final store), the tree
+is the one the search left — what `_add` had inserted is taken back -/
+theorem setItem_tail_error (root1 : Val) (par0 : PRef) (ni0 : Option Str) (nf : List Str) (v t' : Val) (e : PyErr)
+    (h : (if (!nf.isEmpty) = true then
+            match add root1 par0 ni0 nf with
+            | (_, .error e) => (root1, Except.error e)
+            | (root2, .ok (par, ni)) =>
+              match storeAt root2 par (some ni) v with
+              | .error e => (root1, .error e)
+              | .ok root' => (root', .ok ())
+          else
+            match storeAt root1 par0 ni0 v with
+            | .error e => (root1, .error e)
+            | .ok root' => (root', .ok ())) = (t', (.error e : PyM Unit))) : t' = root1 := by
+  by_cases hne : (!nf.isEmpty) = true
+  · rw [if_pos hne] at h
+    cases hadd : add root1 par0 ni0 nf with
+    | mk root2 res =>
+      cases res with
+      | error e2 => simp only [hadd] at h; cases h; rfl
+      | ok pn =>
+        obtain ⟨par, ni⟩ := pn
+        simp only [hadd] at h
+        cases hst : storeAt root2 par (some ni) v with
+        | error e3 => simp only [hst] at h; cases h; rfl
+        | ok r' => simp only [hst] at h; cases h
+  · rw [if_neg hne] at h
+    cases hst : storeAt root1 par0 ni0 v with
+    | error e3 => simp only [hst] at h; cases h; rfl
+    | ok r' => simp only [hst] at h; cases h
+
+/-- **a raising `__setitem__`, every tree, every path text, every value**: the tree afterwards is the tree
+before the call, or the tree the *search* returned (the only thing `_find` ever writes is the conversion of
+a single value into a one-element list by a `new()` step) -/
+theorem setItem_error_tree (fuel : Nat) (t : Val) (xp : Str) (v t' : Val) (e : PyErr)
+    (h : setItem fuel t xp v = (t', .error e)) :
+    t' = t ∨ ∃ r, findD fuel t [] false true (tokenize (if startsWith xp ['?'] then xp.drop 1 else xp)) (.at []) true
+      slash = .ok (t', r) := by
+  cases t with
+  | dict c kvs =>
+    simp only [setItem] at h
+    by_cases hskip : (startsWith xp ['?'] && (decide (v = Val.none) || decide (v = emptyStr))) = true
+    · rw [if_pos hskip] at h; cases h
+    · rw [if_neg hskip] at h
+      generalize (if startsWith xp ['?'] = true then List.drop 1 xp else xp) = xp' at h ⊢
+      by_cases hpc : hasPathChar xp' = true
+      · rw [if_pos hpc] at h
+        cases hfind : findD fuel (.dict c kvs) [] false true (tokenize xp') (.at []) true slash with
+        | error e' => simp only [hfind] at h; cases h; left; rfl
+        | ok pr =>
+          obtain ⟨root1, r⟩ := pr
+          simp only [hfind] at h
+          right
+          refine ⟨r, ?_⟩
+          rw [setItem_tail_error root1 _ _ _ v t' e h]
+      · rw [if_neg hpc] at h; cases h
+  | _ => simp only [setItem] at h; cases h; left; rfl
 
 end N0.XPath
